@@ -191,7 +191,7 @@ register(
     "cursor_generation_check",
     file="searchlite-core/src/api/reader.rs",
     after=r"^fn decode_cursor\(",
-    start=r"^\s*if cur\.generation != manifest_generation \{",
+    start=r"^\s*if cur\.generation\b.*\bmanifest_generation\b.*\{",
     end=r"^\s*\}\);$",
     include_end=True,
     prefix=("/// SLICE (regenerated from the current source): what `decode_cursor` does with a decoded\n"
@@ -212,7 +212,7 @@ register(
     "bool_should_default",
     file="searchlite-core/src/api/reader.rs",
     after=r"^\s*fn matches_node\(&self, node: &QueryMatcher, doc_id: DocId\) -> bool \{",
-    start=r"^\s*let min_should = minimum_should_match\.unwrap_or_else\(\|\| \{",
+    start=r"^\s*let min_should = minimum_should_match\b",
     end=r"^\s*should_matches >= min_should",
     include_end=True,
     prefix=("/// SLICE (regenerated from the current source): the last statements of the Bool arm of\n"
@@ -224,5 +224,43 @@ register(
             "  filter: &Vec<Filter>,\n"
             "  should_matches: usize,\n"
             ") -> bool {"),
+    suffix="}",
+)
+
+
+# --------------------------------------------------------------------------
+# C10: the dis_max combination inside ScoreExpr::evaluate.  The recursive
+# evaluate() over heap-allocated children does not terminate under CBMC (enum
+# payloads in Vecs are not kept constant), so the arithmetic of the DisMax arm is
+# cut out with the child scores as a slice of floats.
+# --------------------------------------------------------------------------
+register(
+    "dismax_combine",
+    file="searchlite-core/src/query/planner.rs",
+    after=r"^\s*pub\(crate\) fn evaluate\(&self, leaves: &\[f32\]\) -> f32 \{",
+    start=r"^\s*if children\.is_empty\(\) \{",
+    end=r"^      \}$",
+    subst=[(r"child\.evaluate\(leaves\)", "*child")],
+    prefix=("/// SLICE (regenerated from the current source): the body of the DisMax arm of\n"
+            "/// `ScoreExpr::evaluate`, with the already evaluated child scores as input.\n"
+            "#[allow(unused_variables)]\n"
+            "fn slice_dismax_combine(children: &[f32], tie_breaker: &f32) -> f32 {"),
+    suffix="}",
+)
+
+
+# --------------------------------------------------------------------------
+# C22: ordering of completion options (inline closure of completion_suggest)
+# --------------------------------------------------------------------------
+register(
+    "suggest_option_order",
+    file="searchlite-core/src/api/reader.rs",
+    after=r"^\s*fn completion_suggest\(",
+    start=r"^\s*options\.sort_by\(\|a, b\| \{",
+    include_start=False,
+    end=r"^\s*\}\);",
+    prefix=("/// SLICE (regenerated from the current source): the comparator closure that orders\n"
+            "/// completion options in `completion_suggest`.\n"
+            "fn slice_suggest_option_order(a: &SuggestOption, b: &SuggestOption) -> Ordering {"),
     suffix="}",
 )
